@@ -3,6 +3,7 @@
 #define VT_TRACE_HPP
 
 #include <cmath>
+#include <csignal>
 #include <cstdint>
 #include <cstdio>
 #include <cstdlib>
@@ -187,13 +188,26 @@ struct rng
     long range(long lo, long hi) { return lo + (long) below((std::uint64_t)(hi - lo + 1)); }
 };
 
+// An exception escaping from the library, an assert firing inside it or a crash must end up as a
+// rejected trace (an "Abort" event no specification accepts), not as a truncated one.
+inline void abort_event(char const* why)
+{
+    static bool once = false;
+    if (once) std::_Exit(0);
+    once = true;
+    if (out().f)
+    {
+        std::fprintf(out().f, "{\"e\":\"Abort\",\"why\":\"%s\"}\n", why);
+        std::fflush(out().f);
+    }
+    std::_Exit(0);
+}
 inline void install_abort_handler()
 {
-    std::set_terminate([] {
-        ev("Abort").emit();
-        out().close();
-        std::_Exit(0);
-    });
+    std::set_terminate([] { abort_event("terminate"); });
+    std::signal(SIGABRT, [](int) { abort_event("SIGABRT"); });
+    std::signal(SIGSEGV, [](int) { abort_event("SIGSEGV"); });
+    std::signal(SIGFPE, [](int) { abort_event("SIGFPE"); });
 }
 
 template <typename T> struct type_name;
